@@ -20,3 +20,10 @@ package mr
 //@   requires chanLen(pool) >= 1
 //@   ensures  chanLen(pool) == old(chanLen(pool)) - 1
 //@   ensures_panic false
+
+// C05 mr worker cap: the option installs exactly the requested number of workers, at least 1 (so WithWorkers(1) is serial)
+//@ func WithWorkers closure 0
+//@   property C05
+//@   requires opts != nil
+//@   ensures opts.workers == max(workers, 1)
+//@   modifies opts.workers
